@@ -505,6 +505,9 @@ class DrvDomain(Domain):
                     raise ThrowEx("levels_ out of range", site)
                 return LevelRef(i)
             if isinstance(b, Handle) and b.kind == "threads":
+                n_ = getattr(b, "length", None)
+                if isinstance(i, int) and not isinstance(i, bool) and isinstance(n_, int) and not (0 <= i < n_):
+                    self.event("oob-list", site, "threads_per_level_[%d] accessed but the vector was resized to %d entries" % (i, n_))
                 return Cell(Opaque("threads"), "threads_per_level_[i]")
             if isinstance(b, ListObj):
                 i = self.concrete_int(i, args[1], fr)
@@ -629,8 +632,11 @@ class DrvDomain(Domain):
                 vals = [it.rvalue(a, fr) for a in args]
                 return self.build_level(vals, site)
         if isinstance(this, Handle) and this.kind == "threads":
-            for a in args:
-                it.rvalue(a, fr)
+            vals_ = [it.rvalue(a, fr) for a in args]
+            if mname in ("resize", "assign") and vals_ and isinstance(vals_[0], int) and not isinstance(vals_[0], bool):
+                this.length = vals_[0]
+            elif mname == "clear":
+                this.length = 0
             self.field_writes.add("threads_per_level_")
             return None
         if isinstance(this, LevelRef) and mname.startswith("initialize"):
